@@ -274,6 +274,11 @@ fn check_c13(text: &str, model: &MField, subst: bool, through_control: bool) -> 
         return out;
     }
     let m2 = read_ll(&re);
+    // the returned object itself must report what its text says (its tree is rebuilt, not parsed)
+    let live = read_ll(&w);
+    if live != m2 {
+        out.push(viol("live-equals-reread", ctx(&format!("the returned object reports {:?}, its printed text reads as {:?}", live, m2))));
+    }
     if sorted_field(&m2) != sorted_field(model) {
         out.push(viol("same-dependencies", ctx(&format!("reads as {:?}, input meant {:?}", m2, model))));
     }
